@@ -153,13 +153,19 @@ def project_case(draw):
             parts.append({"code": draw(st.sampled_from(h[cid]["seeds"])), "results": None, "ops": [["wrap", draw(st.sampled_from(["def", "def", "method", "nested"]))]] + draw(progspace.part_ops())})
         files.append({"codemod": seq[0], "parts": parts, "file_ops": draw(progspace.file_ops())})
     mkind = draw(st.sampled_from(["none", "requirements.txt", "requirements.txt", "pyproject.toml", "setup.py", "setup.cfg"]))
-    mvar = draw(st.sampled_from(["lf", "lf", "crlf", "nofinalnl"]))
+    mvar = draw(st.sampled_from(["lf", "lf", "crlf", "nofinalnl", "trailing-blank", "trailing-ws", "leading-blank", "crlf+trailing-blank"]))
     return {"sequence": seq, "files": files, "manifest": [mkind, mvar]}
 
 
 def manifest_bytes(kind, var):
     text = MANIFESTS[kind]
-    if var == "crlf":
+    if "trailing-blank" in var:
+        text = text + "\n\n"
+    if var == "trailing-ws":
+        text = text + "   \n" if kind != "setup.py" else text + "\n  \n"
+    if var == "leading-blank":
+        text = "\n\n" + text
+    if "crlf" in var:
         text = text.replace("\n", "\r\n")
     elif var == "nofinalnl":
         text = text.rstrip("\n")
